@@ -1,4 +1,5 @@
 import Sebuf.Lemmas.Mapping
+import Sebuf.Lemmas.GoJson
 /-!
 # C05 — server JSON follows the documented mapping wherever an annotated type occurs
 
@@ -13,7 +14,13 @@ Proved:
 * **the property, partial**: when only the top-level message carries annotations, the server's JSON
   IS the documented mapping (`server_follows_mapping_partial`);
 * the full statement ("at any depth") is FALSE of `Impl` and of the real code: witnesses
-  `depth_independence_fails_*` (known findings of C05, replayed on the real code by the harness).
+  `depth_independence_fails_*` (known findings of C05, replayed on the real code by the harness);
+* `json.Marshal` of a protoc-gen-go struct names every member by the PROTO field name, protojson by
+  the JSON name (`goJson_keys_are_proto_names`, `protojson_keys_are_json_names`: all schemas, values);
+  hence the flatten template's wire form of a multi-word child field is not the documented one
+  (`flatten_mapping_diverges`, both sides evaluated);
+* by kernel evaluation of the model on closed schemas: one witness per root cause the harness files a
+  `mapping:` divergence under for the encoding/json templates.
 -/
 namespace Sebuf.C05
 open Sebuf Sebuf.Mapping Sebuf.WireEnc
@@ -54,5 +61,98 @@ theorem depth_independence_fails_int64 (n : Nat) :
 theorem depth_independence_fails_enum (n : Nat) :
     wireEnc Witness.rqEnum (n + 3) Witness.paintMsg Witness.vEnum ≠
       enc Witness.rqEnum (n + 3) Witness.paintMsg Witness.vEnum := Witness.enum_custom_value_never_on_wire n
+
+/-! ### the encoding/json templates -/
+
+section GoJsonTemplates
+open Sebuf.GoJson Sebuf.GoJson.W Sebuf.Json
+
+/-- `json.Marshal` of a protoc-gen-go struct (a message type without a oneof and without its own
+`MarshalJSON`): every member is named by a PROTO field name — any schema, value, fuel. -/
+theorem goJson_keys_are_proto_names (rq : Request) (n : Nat) (m : Message) (vs : List (Str × Val)) (j : Json)
+    (ho : m.oneofs = []) (h : goJson rq n m vs = some j) :
+    ∃ kvs, j = Json.obj kvs ∧ ∀ p ∈ kvs, ∃ f ∈ m.fields, p.1 = f.name :=
+  goMsg_keys_proto_names rq n m vs j ho h
+
+/-- protojson names every member by the field's JSON name (lowerCamel). -/
+theorem protojson_keys_are_json_names (rq : Request) (n : Nat) (m : Message) (vs : List (Str × Val)) :
+    ∃ kvs, pjMsg rq (n + 1) m vs = Json.obj kvs ∧ ∀ p ∈ kvs, ∃ f ∈ m.fields, p.1 = f.json :=
+  pjMsg_keys_json_names rq n m vs
+
+/-- the two namings differ as soon as a field name has an underscore. -/
+example : jsonName (s "zip_code") = s "zipCode" ∧ s "zip_code" ≠ s "zipCode" := by decide
+
+/-- `mapping:flatten_child_via_encoding_json` — `Flat{title:"t", home:{zip_code:"z"}}` with
+`home` flattened under the prefix `home_`: the server sends `home_zip_code`, the documented
+mapping says `home_zipCode`. -/
+theorem flatten_wire_keys_snake_case :
+    serverEnc W.rq 12 flat vFlat = some (Json.obj [(s "title", W.str "t"), (s "home_zip_code", W.str "z")]) := flat_wire
+theorem flatten_spec_keys_lower_camel (n : Nat) :
+    enc W.rq (n + 6) flat vFlat = Json.obj [(s "title", W.str "t"), (s "home_zipCode", W.str "z")] := flat_spec n
+theorem flatten_mapping_diverges (n : Nat) : serverEnc W.rq 12 flat vFlat ≠ some (enc W.rq (n + 6) flat vFlat) := by
+  rw [flatten_wire_keys_snake_case, flatten_spec_keys_lower_camel]
+  decide
+
+/-- 64-bit integers of a flattened child are sent as JSON numbers. -/
+theorem flatten_child_int64_as_number :
+    serverEnc W.rq 12 flat [(s "home", .msg [(s "big", .int 5)])] = some (Json.obj [(s "home_big", W.int 5)]) := flat_wire_int64
+
+/-- two flatten fields of the same child type: each child's members stay under its own prefix
+(a member the second child omits is NOT inherited from the first). -/
+theorem flatten_two_children_keys_apart :
+    serverEnc W.rq 12 two [(s "billing", .msg [(s "street", vstr "a"), (s "count", .int 12)]), (s "shipping", .msg [(s "street", vstr "b")])] =
+    some (Json.obj [(s "billing_street", W.str "a"), (s "billing_count", W.int 12), (s "shipping_street", W.str "b")]) := two_wire
+
+/-- `mapping:oneof_flatten_variant_via_encoding_json`. -/
+theorem oneof_flatten_wire_multiword :
+    serverEnc W.rq 12 oneFlat [(s "ident", vstr "i"), (s "multi_word", .msg [(s "lang_code", vstr "en")])] =
+    some (Json.obj [(s "ident", W.str "i"), (s "type", W.str "mw"), (s "lang_code", W.str "en")]) := oneFlat_wire_multiword
+
+/-- `mapping:oneof_flatten_variant_dropped_on_marshal_error`. -/
+theorem oneof_flatten_wire_nan_dropped :
+    serverEnc W.rq 12 oneFlat [(s "single", .msg [(s "body", vstr "b"), (s "ratio", .float (s "NaN") true)])] =
+    some (Json.obj [(s "type", W.str "single")]) := oneFlat_wire_nan
+
+/-- `mapping:int64@oneof_variant`: a variant type with `int64_encoding = NUMBER` under a nested
+discriminated oneof is written by protojson (string). -/
+theorem oneof_nested_annotated_variant_by_protojson :
+    serverEnc W.rq 12 oneNest [(s "num", .msg [(s "big_val", .int 5)])] =
+    some (Json.obj [(s "num", Json.obj [(s "bigVal", W.str "5")]), (s "type", W.str "num")]) := oneNest_wire_annotated_variant
+
+/-- `mapping:root_unwrap_scalar_via_encoding_json`: a root unwrap of `repeated int64` is an array of
+numbers (proto3 JSON: decimal strings). -/
+theorem root_unwrap_int64_as_number : serverEnc W.rq 12 numList [(s "nums", .list [.int 5])] = some (Json.arr [W.int 5]) := numList_wire
+
+/-- `mapping:unwrap_container_sibling_via_encoding_json`, `mapping:unwrap_map_value_scalar_via_encoding_json`,
+`mapping:unwrap_map_value_nil_scalar_list_as_null`: the container's 64-bit sibling and the
+unwrapped scalar lists are numbers; an empty scalar list is `null`. -/
+theorem container_wire :
+    serverEnc W.rq 12 cont [(s "by_n", .map [(s "x", .msg [(s "nums", .list [.int 5])]), (s "z", .msg [])]), (s "big_i", .int 7)] =
+    some (Json.obj [(s "byN", Json.obj [(s "x", Json.arr [W.int 5]), (s "z", Json.null)]), (s "bigI", W.int 7)]) := cont_wire
+
+/-- `encode_error:*` (the server answers 500 for a valid message). -/
+theorem encoding_json_encode_errors :
+    serverEnc W.rq 12 flatFlags [(s "inner", .msg [(s "ratio", .float (s "NaN") true)])] = none ∧
+    serverEnc W.rq 12 flatFlags [(s "inner", .msg [(s "flags", .map [(s "true", vstr "x")])])] = none ∧
+    serverEnc W.rq 12 ratios [(s "items", .list [.float (s "Infinity") true])] = none ∧
+    serverEnc W.rq 12 cont [(s "dbl", .float (s "NaN") true)] = none :=
+  ⟨flatFlags_nan, flatFlags_bool_map, ratios_nan, cont_nan⟩
+
+/-- `decode_contract_form*` (the handler-visible request for a body in the documented form). -/
+theorem contract_form_requests :
+    GoDec.serverDec W.rq 12 flat (Json.obj [(s "title", W.str "t"), (s "home_street", W.str "x"), (s "home_zipCode", W.str "z")]) = .ok [(s "title", vstr "t")] ∧
+    GoDec.serverDec W.rq 12 flat (Json.obj [(s "home_big", W.str "5")]) = .error (.goType (s "big")) ∧
+    GoDec.serverDec W.rq 12 oneFlat (Json.obj [(s "type", W.str "mw"), (s "langCode", W.str "en"), (s "url", W.str "u")]) = .ok [(s "multi_word", .msg [(s "url", vstr "u")])] ∧
+    GoDec.serverDec W.rq 12 oneFlat (Json.obj [(s "type", W.str "single"), (s "big", W.str "5")]) = .error (.goType (s "big")) ∧
+    GoDec.serverDec W.rq 12 oneFlat (Json.obj [(s "type", W.str "single"), (s "ratio", Json.num (JNum.float (s "-0")))]) = .ok [(s "single", .msg [])] ∧
+    GoDec.serverDec W.rq 12 oneNest (Json.obj [(s "type", W.str "single"), (s "single", Json.obj [(s "big", W.str "5")])]) = .error (.goType (s "big")) ∧
+    GoDec.serverDec W.rq 12 numList (Json.arr [W.str "5"]) = .error (.goType (s "nums")) ∧
+    GoDec.serverDec W.rq 12 cont (Json.obj [(s "bigI", W.str "7")]) = .error (.goType (s "big_i")) ∧
+    GoDec.serverDec W.rq 12 cont (Json.obj [(s "byK", Json.obj [(s "k", Json.obj [(s "street", W.str "x"), (s "zipCode", W.str "z")])])]) =
+      .ok [(s "by_k", .map [(s "k", .msg [(s "street", vstr "x")])])] :=
+  ⟨flat_contract_child_lost, flat_contract_int64, oneFlat_contract_multiword_dropped, oneFlat_contract_int64, oneFlat_contract_negzero,
+   oneNest_contract_int64, numList_contract, cont_contract_int64, cont_contract_member_dropped⟩
+
+end GoJsonTemplates
 
 end Sebuf.C05
